@@ -75,6 +75,8 @@ class Event:
             return 'call %s(%s)' % (self.name, ', '.join(a.canon() if a is not None else '?' for a in self.args))
         if self.kind in ('iter-end', 'loop-begin', 'loop-end'):
             return '%s L%s' % (self.kind, self.id)
+        if self.kind == 'store' and not hasattr(self.value, 'canon'):
+            return 'store %s' % self.lv
         return '%s %s = %s' % (self.kind, self.lv, self.value.canon() if self.value is not None else '?')
 
 
@@ -986,7 +988,15 @@ class Interp:
         if self.on_math and name in ('log', 'log10', 'asin', 'acos', 'sqrt', 'pow'):
             self.on_math(node, name, args, st, self)
         res = None
-        if self.call_model:
+        if name == 'pow' and len(args) == 2:
+            en = reduce_trig(args[1].n)
+            if args[1].d.is_const() and en.is_const():
+                ex = en.const_value() / args[1].d.const_value()
+                if ex.denominator == 1 and 0 <= ex <= 8:
+                    res = Rat.const(1)
+                    for _ in range(int(ex)):
+                        res = res * args[0]
+        if res is None and self.call_model:
             res = self.call_model(ev, st, self)
         if res is None:
             T = node.get('T', '')
@@ -1387,7 +1397,17 @@ class Interp:
                 snap = {}
                 for vid, ref in w.items():
                     snap[ref['name']] = (Rat.sym('%s@L%d' % (ref['name'], lid)), s.env.get(vid))
-                s.events.append(Event('iter-end', node=node, id=lid, args=snap, loop=s.loopdepth))
+                ev_ = Event('iter-end', node=node, id=lid, args=snap, loop=s.loopdepth)
+                # memory cells stored during this iteration: cell -> value at the end of the iteration
+                memsnap = {}
+                started = False
+                for e_ in s.events:
+                    if e_.kind == 'loop-begin' and e_.id == lid:
+                        started = True
+                    elif started and e_.kind == 'store' and e_.lv in s.mem:
+                        memsnap[e_.lv] = s.mem[e_.lv]
+                ev_.value = memsnap
+                s.events.append(ev_)
                 # further iterations: havoc again, then exit with the condition false
                 self.counter += 1
                 for vid, ref in w.items():
